@@ -23,6 +23,8 @@ package PKGNAME
 import (
 	"encoding/json"
 	"fmt"
+	"net/rpc"
+	"net/rpc/jsonrpc"
 	"os"
 	"os/exec"
 	"path/filepath"
@@ -568,6 +570,14 @@ func vVersionValues(ver int) map[string]any {
 		"STATUS":     ServerStatus{Npresamp: 100 * ver, Nsamples: 400 * ver, SourceName: fmt.Sprintf("v%d", ver)},
 		"WRITING":    &WritingState{BasePath: fmt.Sprintf("/data/version%d", ver)},
 		"TESMAPFILE": fmt.Sprintf("/maps/version%d.cfg", ver),
+		"ABACO": &AbacoSourceConfig{ActiveCards: []int{ver % 3}, HostPortUDP: []string{fmt.Sprintf("localhost:%d", 4000+ver)},
+			AbacoUnwrapOptions: AbacoUnwrapOptions{RescaleRaw: true, Unwrap: ver%2 == 0, Bias: ver%3 == 0, ResetAfter: 1000 + ver, PulseSign: 1 - 2*(ver%2), InvertChan: []int{ver, ver + 1}}},
+		"ROACH":   &RoachSourceConfig{HostPort: []string{fmt.Sprintf("10.0.0.%d:6000", 1+ver%200)}, Rates: []float64{40000 + float64(ver)}},
+		"LANCERO": &LanceroSourceConfig{FiberMask: uint32(ver), CardDelay: []int{ver % 7}, ActiveCards: []int{ver % 4}, FirstRow: ver, ChanSepCards: 100 * ver, ChanSepColumns: ver},
+		"TRIGGER": []FullTriggerState{
+			{ChannelIndices: []int{0, 2}, TriggerState: TriggerState{AutoTrigger: true, AutoDelay: time.Duration(ver) * time.Millisecond, LevelLevel: RawType(ver)}},
+			{ChannelIndices: []int{1}, TriggerState: TriggerState{EdgeTrigger: true, EdgeRising: true, EdgeLevel: int32(100 + ver), LevelTrigger: ver%2 == 0, LevelLevel: RawType(1000 + ver)}},
+		},
 	}
 }
 
@@ -600,6 +610,233 @@ func vRestoreChild() {
 	b, _ := json.Marshal(states)
 	fmt.Println("RESTORED " + string(b))
 	os.Exit(0)
+}
+
+// vStartupChild runs inside a private network namespace: it starts the REAL dastard program (built from the current
+// tree) with the given HOME, asks it for all status over JSON-RPC, starts the triangle source, and prints what the
+// status socket said.
+func vStartupChild() {
+	bin := os.Getenv("VERIF_EXTRA_BIN")
+	home, _ := os.UserHomeDir()
+	cmd := exec.Command(bin)
+	cmd.Dir = home
+	cmd.Env = append(os.Environ(), "HOME="+home)
+	logf, _ := os.Create(filepath.Join(home, "dastard.out"))
+	cmd.Stdout, cmd.Stderr = logf, logf
+	if err := cmd.Start(); err != nil {
+		fmt.Println("CHILD-ERROR", err)
+		os.Exit(3)
+	}
+	defer cmd.Process.Kill()
+	fail := func(f string, a ...any) {
+		fmt.Println("CHILD-ERROR " + fmt.Sprintf(f, a...))
+		cmd.Process.Kill()
+		os.Exit(3)
+	}
+	var client *rpc.Client
+	var err error
+	for i := 0; i < 200; i++ {
+		if client, err = jsonrpc.Dial("tcp", "127.0.0.1:5500"); err == nil {
+			break
+		}
+		time.Sleep(50 * time.Millisecond)
+	}
+	if err != nil {
+		fail("the program did not open its RPC port: %v", err)
+	}
+	sub, err := zmq4.NewSocket(zmq4.SUB)
+	if err != nil {
+		fail("%v", err)
+	}
+	sub.SetSubscribe("")
+	sub.SetRcvtimeo(200 * time.Millisecond)
+	if err := sub.Connect("tcp://127.0.0.1:5501"); err != nil {
+		fail("%v", err)
+	}
+	time.Sleep(400 * time.Millisecond) // subscription established
+	got := map[string]string{}
+	collect := func(d time.Duration) {
+		end := time.Now().Add(d)
+		for time.Now().Before(end) {
+			if m, err := sub.RecvMessage(0); err == nil && len(m) == 2 {
+				got[m[0]] = m[1]
+			}
+		}
+	}
+	var okay bool
+	dummy := ""
+	if err := client.Call("SourceControl.SendAllStatus", &dummy, &okay); err != nil {
+		fail("SendAllStatus: %v", err)
+	}
+	collect(700 * time.Millisecond)
+	name := "TRIANGLESOURCE"
+	if err := client.Call("SourceControl.Start", &name, &okay); err != nil {
+		got["__start_error"] = err.Error()
+	} else {
+		collect(700 * time.Millisecond)
+		client.Call("SourceControl.Stop", &dummy, &okay)
+	}
+	b, _ := json.Marshal(got)
+	fmt.Println("STARTUP " + string(b))
+	cmd.Process.Kill()
+	os.Exit(0)
+}
+
+// vRunStartup: version 1, then version N of every persistent topic is saved by the real saveState in a child; then the
+// real program starts from that HOME in a private network namespace and must announce exactly those values.
+func vRunStartup(c *vCase) {
+	bin := os.Getenv("VERIF_EXTRA_BIN")
+	if bin == "" {
+		c.Cov("startup_family_skipped", 1)
+		return
+	}
+	if _, err := exec.LookPath("unshare"); err != nil {
+		c.Cov("startup_family_skipped", 1)
+		return
+	}
+	ver := 2 + c.R.Intn(30)
+	c.Describe("startup: version %d seed %d idx %d", ver, c.Seed, c.Idx)
+	home := filepath.Join(c.Dir, "home")
+	os.MkdirAll(home, 0o755)
+	cmd := exec.Command(os.Args[0], "-test.run", "^TestVerif$")
+	cmd.Env = append(os.Environ(), "VERIF_CHILD=crash", "VERIF_KILL_AT=none", fmt.Sprintf("VERIF_V2=%d", ver), "HOME="+home, "VERIF_PROP=C16")
+	if out, err := cmd.CombinedOutput(); err != nil {
+		c.Inconclusive("child", "saving child failed: %v %s", err, vTrim(string(out), 500))
+		return
+	}
+	os.Remove(filepath.Join(home, ".dastard", "v1ready"))
+	os.Remove(filepath.Join(home, ".dastard", "v2done"))
+	sh := fmt.Sprintf("ip link set lo up && exec %q -test.run '^TestVerif$'", os.Args[0])
+	cmd = exec.Command("unshare", "-n", "sh", "-c", sh)
+	cmd.Env = append(os.Environ(), "VERIF_CHILD=startup", "HOME="+home, "VERIF_PROP=C16", "VERIF_EXTRA_BIN="+bin)
+	out, err := cmd.CombinedOutput()
+	i := strings.Index(string(out), "STARTUP ")
+	if err != nil || i < 0 {
+		if strings.Contains(string(out), "Operation not permitted") || strings.Contains(string(out), "unshare:") {
+			c.Cov("startup_family_skipped", 1) // no private network namespace available here
+			return
+		}
+		c.Inconclusive("child", "start-up child failed: %v %s", err, vTrim(string(out), 800))
+		return
+	}
+	line := string(out)[i+len("STARTUP "):]
+	if j := strings.Index(line, "\n"); j >= 0 {
+		line = line[:j]
+	}
+	got := map[string]string{}
+	if err := json.Unmarshal([]byte(line), &got); err != nil {
+		c.Inconclusive("child", "cannot parse the start-up child's output: %v", err)
+		return
+	}
+	want := vVersionValues(ver)
+	same := func(topic string, into, exp any) bool {
+		body, ok := got[topic]
+		if !ok {
+			c.Violate("c16:startup-missing-"+strings.ToLower(topic), "the restarted program did not announce topic %s (it announced %d topics); the configuration file held it", topic, len(got))
+			return false
+		}
+		if err := json.Unmarshal([]byte(body), into); err != nil {
+			c.Violate("c16:startup-unparsable-"+strings.ToLower(topic), "topic %s announced by the restarted program: %v: %s", topic, err, vTrim(body, 200))
+			return false
+		}
+		gj, _ := json.Marshal(reflect.ValueOf(into).Elem().Interface())
+		ej, _ := json.Marshal(exp)
+		if strings.ReplaceAll(string(gj), "null", "[]") != strings.ReplaceAll(string(ej), "null", "[]") {
+			c.Violate("c16:startup-"+strings.ToLower(topic), "after a restart the program announces %s = %s, the saved configuration was %s", topic, vTrim(string(gj), 400), vTrim(string(ej), 400))
+			return false
+		}
+		c.Cov("startup_topics_compared", 1)
+		return true
+	}
+	var tr TriangleSourceConfig
+	var sp SimPulseSourceConfig
+	var ro RoachSourceConfig
+	if !same("TRIANGLE", &tr, *want["TRIANGLE"].(*TriangleSourceConfig)) || !same("SIMPULSE", &sp, *want["SIMPULSE"].(*SimPulseSourceConfig)) ||
+		!same("ROACH", &ro, *want["ROACH"].(*RoachSourceConfig)) {
+		return
+	}
+	var ab AbacoSourceConfig
+	if body, ok := got["ABACO"]; ok && json.Unmarshal([]byte(body), &ab) == nil {
+		ab.AvailableCards = nil
+		ea := *want["ABACO"].(*AbacoSourceConfig)
+		gj, _ := json.Marshal(ab)
+		ej, _ := json.Marshal(ea)
+		if strings.ReplaceAll(string(gj), "null", "[]") != strings.ReplaceAll(string(ej), "null", "[]") {
+			c.Violate("c16:startup-abaco", "after a restart the program announces ABACO = %s, the saved configuration was %s", gj, ej)
+			return
+		}
+		c.Cov("startup_topics_compared", 1)
+	} else {
+		c.Violate("c16:startup-missing-abaco", "the restarted program did not announce topic ABACO")
+		return
+	}
+	var la LanceroSourceConfig
+	if body, ok := got["LANCERO"]; ok && json.Unmarshal([]byte(body), &la) == nil {
+		la.DastardOutput = LanceroDastardOutputJSON{}
+		el := *want["LANCERO"].(*LanceroSourceConfig)
+		gj, _ := json.Marshal(la)
+		ej, _ := json.Marshal(el)
+		if strings.ReplaceAll(string(gj), "null", "[]") != strings.ReplaceAll(string(ej), "null", "[]") {
+			c.Violate("c16:startup-lancero", "after a restart the program announces LANCERO = %s, the saved configuration was %s", gj, ej)
+			return
+		}
+		c.Cov("startup_topics_compared", 1)
+	} else {
+		c.Violate("c16:startup-missing-lancero", "the restarted program did not announce topic LANCERO")
+		return
+	}
+	var st ServerStatus
+	if body, ok := got["STATUS"]; ok && json.Unmarshal([]byte(body), &st) == nil {
+		es := want["STATUS"].(ServerStatus)
+		if st.Npresamp != es.Npresamp || st.Nsamples != es.Nsamples {
+			c.Violate("c16:startup-record-lengths", "after a restart the record lengths are %d/%d, saved were %d/%d", st.Npresamp, st.Nsamples, es.Npresamp, es.Nsamples)
+			return
+		}
+		c.Cov("startup_topics_compared", 1)
+	} else {
+		c.Violate("c16:startup-missing-status", "the restarted program did not announce topic STATUS")
+		return
+	}
+	var ws WritingState
+	if body, ok := got["WRITING"]; ok && json.Unmarshal([]byte(body), &ws) == nil {
+		if ws.BasePath != want["WRITING"].(*WritingState).BasePath {
+			c.Violate("c16:startup-basepath", "after a restart the output base path is %q, saved was %q", ws.BasePath, want["WRITING"].(*WritingState).BasePath)
+			return
+		}
+		c.Cov("startup_topics_compared", 1)
+	} else {
+		c.Violate("c16:startup-missing-writing", "the restarted program did not announce topic WRITING")
+		return
+	}
+	// trigger settings: announced once a source runs
+	if e, bad := got["__start_error"]; bad {
+		c.Violate("c16:startup-source", "the restarted program could not start the triangle source with the restored configuration: %s", e)
+		return
+	}
+	var fts []FullTriggerState
+	if body, ok := got["TRIGGER"]; !ok || json.Unmarshal([]byte(body), &fts) != nil {
+		c.Violate("c16:startup-missing-trigger", "the restarted program announced no TRIGGER state after starting a source")
+		return
+	}
+	perch := map[int]TriggerState{}
+	for _, f := range fts {
+		for _, ch := range f.ChannelIndices {
+			perch[ch] = f.TriggerState
+		}
+	}
+	for _, e := range want["TRIGGER"].([]FullTriggerState) {
+		for _, ch := range e.ChannelIndices {
+			g, ok := perch[ch]
+			if !ok || g.AutoTrigger != e.AutoTrigger || g.AutoDelay != e.AutoDelay || g.EdgeTrigger != e.EdgeTrigger || g.EdgeLevel != e.EdgeLevel ||
+				g.EdgeRising != e.EdgeRising || g.LevelTrigger != e.LevelTrigger || g.LevelLevel != e.LevelLevel {
+				c.Violate("c16:startup-trigger", "after a restart channel %d runs with trigger settings %+v, saved were %+v", ch, g, e.TriggerState)
+				return
+			}
+			c.Cov("startup_trigger_channels", 1)
+		}
+	}
+	c.Cov("startups_of_the_real_program", 1)
+	c.Nontrivial()
 }
 
 // vResaveChild: the next run after a killed save: read the configuration, change every topic, save.
@@ -641,7 +878,9 @@ func vCrashChild() {
 	saveState(last)
 	saveState(last) // a second save, so that a .bak of version 1 exists
 	os.WriteFile(filepath.Join(dir, "v1ready"), []byte("ok"), 0o644)
-	for k, v := range vVersionValues(2) {
+	v2 := 2
+	fmt.Sscan(os.Getenv("VERIF_V2"), &v2)
+	for k, v := range vVersionValues(v2) {
 		last[k] = v
 	}
 	killAt := os.Getenv("VERIF_KILL_AT")
@@ -844,6 +1083,10 @@ func vRunStatus(c *vCase) {
 		c.Inconclusive("setup", "status environment not available: %v", e.err)
 		return
 	}
+	if c.Idx%17 == 16 { // 17 is coprime with the shard counts: the (slow) start-ups spread over all shards
+		vRunStartup(c)
+		return
+	}
 	switch c.Idx % 4 {
 	case 0:
 		vRunReplay(c)
@@ -871,7 +1114,7 @@ func init() {
 			Assumptions: []string{"libzmq delivers in order on one connection and loses nothing once the subscription is established (receive high-water mark 0)", "a process kill, not a power loss: data written before the kill are in the page cache",
 				"edge-multi settings are documented as not restored", "NEWDASTARD is an announcement the code documents as not stored"},
 			Guards: map[string]map[string]int{
-				"quick":    {"replays": 60, "replayed_messages": 1000, "republished_values": 200, "persist_histories": 60, "persist_histories_ending_with_unsaved_topic": 15, "restored_topics_compared": 300, "kills_at_save.begin": 8, "kills_at_save.tmpWritten": 8, "kills_at_save.bakRemoved": 8, "kills_at_save.mainMoved": 8, "kills_at_save.done": 8, "survived_as_old_version": 10, "survived_as_new_version": 10, "syscall_kills": 40, "saves_after_a_killed_save": 60, "trigger_restores_in_fresh_process": 20, "distinct:syscall_kill_point": 8},
+				"quick":    {"replays": 60, "replayed_messages": 1000, "republished_values": 200, "persist_histories": 60, "persist_histories_ending_with_unsaved_topic": 15, "restored_topics_compared": 300, "kills_at_save.begin": 8, "kills_at_save.tmpWritten": 8, "kills_at_save.bakRemoved": 8, "kills_at_save.mainMoved": 8, "kills_at_save.done": 8, "survived_as_old_version": 10, "survived_as_new_version": 10, "syscall_kills": 30, "startups_of_the_real_program": 8, "saves_after_a_killed_save": 60, "trigger_restores_in_fresh_process": 20, "distinct:syscall_kill_point": 8},
 				"thorough": {"replays": 800, "persist_histories": 800},
 			}},
 	})
